@@ -79,7 +79,7 @@ func faultFor(id, call int, arg string) string {
 			}
 			continue
 		}
-		if f.K == call {
+		if f.K == call || f.Persistent && call >= f.K {
 			return f.Kind
 		}
 	}
